@@ -217,6 +217,8 @@ pub fn subs() -> Vec<Sub> {
         Sub { prop: "C01", name: "types",
               rule: "tape-generated value of a registry type (uniform over ~120 instantiations, boundary-dense leaves) -> to_vec -> decode with 0-3 junk bytes appended; non-trivial = encoding >= 2 bytes; distinct by (type, bytes)",
               kind: Kind::Random { quick: 1_200_000, thorough: 12_000_000, tape: 1024, f: random_types } },
+        Sub { prop: "C01", name: "context-threading", rule: "24 container shapes (Vec, VecDeque, LinkedList, arrays, tuples up to arity 16, Option, Box, BTreeMap values, maps whose keys and values both use the context, Result, Bound, Range, RangeInclusive, nestings, Tagged, RefCell, slices, ArrayIter / MapIter encoders, array_iter_with / map_iter_with) over an element type that encodes as the user context's counter and advances it: encode_with, len_with and decode_with hand the one context to every element exactly once in wire order (bytes = shape over k..k+n, counter ends at k+n, len_with agrees, decoding with a different counter fails); non-trivial = at least two elements",
+              kind: Kind::Random { quick: 200_000, thorough: 2_000_000, tape: 64, f: crate::checks::ctx::context_threading } },
         Sub { prop: "C01", name: "api-variants", rule: "registry values through to_vec / to_vec_with / encode / encode_with / Encoder::encode / Encoder::encode_with (same bytes), len / len_with, decode / decode_with / Decoder::decode_with (same value, exact consumption); the value behind &T / &&T / &mut T / Box<T> / Some(T) encodes and measures like T, Box<T> and Option<T> decode like T",
               kind: Kind::Random { quick: 300_000, thorough: 3_000_000, tape: 1024, f: variants } },
         Sub { prop: "C01", name: "large", rule: "collections, strings and byte strings of 65535 / 65536 / 65537 / 70000 / 131072 elements (Vec, VecDeque with a wrapped buffer, LinkedList, BTreeMap, BTreeSet, HashSet, String, ByteVec): round trip with junk appended, exact consumption",
